@@ -32,6 +32,11 @@ def run(ctx, res):
              + scenarios.directed_cases(ctx, "c01o", ctx.budget(80, 1500), scenarios.ota_history, VERSIONS)
              + gwcheck.gen_cases(ctx, "c01", ctx.budget(200, 4000), mqtt_rate=0.25))
     run_ctl_races(ctx, res)
+    for i, c in enumerate(cases):
+        # every 12th history: the event callback answers value reports by calling set_child_value from inside the
+        # callback (monitors only - the sequential model has no controller call in the middle of a handler)
+        if i % 12 == 7 and c["cfg"].get("callback", True) and not c["cfg"].get("mqtt"):
+            c["cfg"]["cb_reenters"] = True
     recs = gwcheck.run_cases(ctx, res, cases, ["c01"], SCOPE, "c01")
     for r in recs:
         st = r["stats"]
